@@ -3,11 +3,15 @@ package main
 // C02, C06, C07, C13 — rule assemblies plus the filter / price-skeleton rules.
 
 import (
+	"encoding/json"
 	"fmt"
 	"go/ast"
+	"go/constant"
 	"go/token"
 	"go/types"
+	"regexp/syntax"
 	"sort"
+	"strconv"
 	"strings"
 )
 
@@ -81,6 +85,7 @@ func ruleC07(c *Check) {
 	c.newBatchRules("C07", map[string]bool{"supermode-charged": true})
 	c.paramGettersExact("C07.1", "KeyBaseDenom")
 	c.moduleServiceNotSuper("C07.7")
+	c.discountPattern("C07.9")
 	// "never less than one unit of the base denomination": the price routine reads the denomination off the stored base price, which the parser never leaves empty
 	c.priceNonEmpty("C07.8", c.handFuncs("keeper"))
 }
@@ -1114,4 +1119,124 @@ func (c *Check) volumeWriters(rule string) {
 	}
 	check("EndBlocker", c.P.SummaryOf(u.EndBlocker))
 	c.req(n >= 1, rule, "volume-writers", token.NoPos, fmt.Sprintf("%d writes of the request volume reachable from messages and the end-blocker", n))
+}
+
+// discountPattern (C07.9): "every discount lies strictly between 0 and 1" rests on the pattern the pricing schema puts on
+// a discount string. The schema constant is read from the source, every "pattern" of a property named discount is parsed
+// (regexp/syntax) and must denote only strings of the form 0 . digits ending in a non-zero digit: anchored at both ends,
+// beginning with the literal "0.", continuing with digit-only pieces, ending in a class within [1-9]. A pattern of another
+// shape (an unescaped dot, a missing anchor, a leading digit class) is reported: it admits numbers outside (0,1).
+func (c *Check) discountPattern(rule string) {
+	obj, _ := c.P.ByPkg[pkgTypes].Types.Scope().Lookup("PricingSchema").(*types.Const)
+	if obj == nil || obj.Val().Kind() != constant.String {
+		c.undecided(rule, "types.PricingSchema", token.NoPos, "pricing schema constant not found")
+		return
+	}
+	var doc interface{}
+	if err := json.Unmarshal([]byte(constant.StringVal(obj.Val())), &doc); err != nil {
+		c.undecided(rule, "types.PricingSchema", obj.Pos(), "the pricing schema is not valid JSON: "+err.Error())
+		return
+	}
+	var pats []string
+	var walk func(v interface{}, name string)
+	walk = func(v interface{}, name string) {
+		switch x := v.(type) {
+		case map[string]interface{}:
+			if p, ok := x["pattern"].(string); ok && strings.Contains(strings.ToLower(name), "discount") {
+				pats = append(pats, p)
+			}
+			for k, w := range x {
+				walk(w, k)
+			}
+		case []interface{}:
+			for _, w := range x {
+				walk(w, name)
+			}
+		}
+	}
+	walk(doc, "")
+	sort.Strings(pats)
+	c.req(len(pats) >= 1, rule, "types.PricingSchema#discount-patterns", obj.Pos(), fmt.Sprintf("%d discount pattern(s) in the pricing schema", len(pats)))
+	for _, p := range pats {
+		ok, why := unitIntervalPattern(p)
+		c.Sites++
+		c.req(ok, rule, "types.PricingSchema#discount-pattern", obj.Pos(), "the discount pattern "+strconv.Quote(p)+" admits only 0.d…d with a non-zero last digit"+condStr(!ok, ": "+why))
+	}
+}
+
+func unitIntervalPattern(pat string) (bool, string) {
+	re, err := syntax.Parse(pat, syntax.Perl)
+	if err != nil {
+		return false, "not a valid regular expression: " + err.Error()
+	}
+	re = re.Simplify()
+	var parts []*syntax.Regexp
+	if re.Op == syntax.OpConcat {
+		parts = re.Sub
+	} else {
+		parts = []*syntax.Regexp{re}
+	}
+	if len(parts) < 3 || parts[0].Op != syntax.OpBeginText || parts[len(parts)-1].Op != syntax.OpEndText {
+		return false, "not anchored at both ends (^…$)"
+	}
+	mid := parts[1 : len(parts)-1]
+	digitsOnly := func(r *syntax.Regexp, lo rune) bool {
+		var ok func(r *syntax.Regexp) bool
+		ok = func(r *syntax.Regexp) bool {
+			switch r.Op {
+			case syntax.OpLiteral:
+				for _, ch := range r.Rune {
+					if ch < lo || ch > '9' {
+						return false
+					}
+				}
+				return r.Flags&syntax.FoldCase == 0
+			case syntax.OpCharClass:
+				for i := 0; i+1 < len(r.Rune); i += 2 {
+					if r.Rune[i] < lo || r.Rune[i+1] > '9' {
+						return false
+					}
+				}
+				return len(r.Rune) > 0
+			case syntax.OpStar, syntax.OpPlus, syntax.OpQuest, syntax.OpRepeat, syntax.OpCapture:
+				return ok(r.Sub[0])
+			case syntax.OpConcat, syntax.OpAlternate:
+				for _, s := range r.Sub {
+					if !ok(s) {
+						return false
+					}
+				}
+				return true
+			case syntax.OpEmptyMatch:
+				return true
+			}
+			return false
+		}
+		return ok(r)
+	}
+	first := mid[0]
+	if first.Op != syntax.OpLiteral || len(first.Rune) < 2 || first.Rune[0] != '0' || first.Rune[1] != '.' {
+		return false, "does not begin with the literal \"0.\" (an unescaped dot matches any character)"
+	}
+	for _, ch := range first.Rune[2:] {
+		if ch < '0' || ch > '9' {
+			return false, "a non-digit follows the decimal point"
+		}
+	}
+	for _, m := range mid[1:] {
+		if !digitsOnly(m, '0') {
+			return false, "a piece after the decimal point admits a non-digit: " + m.String()
+		}
+	}
+	last := mid[len(mid)-1]
+	switch {
+	case len(mid) == 1:
+		if lr := first.Rune[len(first.Rune)-1]; lr < '1' || lr > '9' || len(first.Rune) < 3 {
+			return false, "the last digit may be zero or missing"
+		}
+	case (last.Op == syntax.OpCharClass || last.Op == syntax.OpLiteral) && digitsOnly(last, '1'):
+	default:
+		return false, "the last piece does not force a non-zero last digit: " + last.String()
+	}
+	return true, ""
 }
